@@ -652,10 +652,29 @@ def nontrivial_cli(req, out):
     vs = cli_parse(out)
     return bool(vs) and vs[0][0] == 0 and vs[0][1] != vs[3][1]
 
+def strip_projection():
+    """which colours, and which of bold / underline, a theme uses is presentation that the property leaves open: it fixes the
+       text that remains once the SGR sequences are removed. Before the model's and the implementation's renderings are
+       compared, both are therefore reduced to that text (every hex token of an `ok` answer: decode, remove the SGR sequences
+       as the property defines them, encode). The oracles keep judging the raw bytes (stripped styled = unstyled, identity
+       under no_colour, equal visible row widths)."""
+    def f(req, line):
+        toks = line.split(" ")
+        if toks[0] != "ok":
+            return line
+        out = [toks[0]]
+        for x in toks[1:]:
+            try:
+                out.append(hx(sgr_strip(unhx(x))) if x != "-" else x)
+            except Exception:
+                out.append(x)
+        return " ".join(out)
+    return f
+
 
 def suites():
     return [
-        Suite("format", gen_format, oracle=oracle_format, nontrivial=lambda r, o: o.startswith("ok ") and o != "ok - -",
+        Suite("format", gen_format, oracle=oracle_format, project=strip_projection, nontrivial=lambda r, o: o.startswith("ok ") and o != "ok - -",
               exhaustive=lambda t: True,
               rule="4 schemes x all 484 prop combinations (colour, background 0..10 incl. out-of-range, bold, underline) x texts "
                    "(empty, Unicode, invalid UTF-8, ESC fragments) + unknown scheme names + random; non-trivial = non-empty output"),
@@ -663,13 +682,13 @@ def suites():
               exhaustive=lambda t: True,
               rule="all strings over {ESC [ 1 ; m x} up to length 5 (quick) / 7 (thorough) + random strings over a wider alphabet incl. "
                    "multi-byte and invalid UTF-8"),
-        Suite("doc", gen_doc, oracle=oracle_doc, nontrivial=nontrivial_doc,
+        Suite("doc", gen_doc, oracle=oracle_doc, project=strip_projection, nontrivial=nontrivial_doc,
               rule="random document trees (depth <= 4) of plain and styled pieces whose texts mix words, Unicode and ESC fragments; "
                    "non-trivial = styled and unstyled renderings differ"),
-        Suite("table", gen_table, oracle=oracle_table, nontrivial=nontrivial_table,
+        Suite("table", gen_table, oracle=oracle_table, project=strip_projection, nontrivial=nontrivial_table,
               rule="random tables: 2..6 columns (+ illegal counts), separators incl. empty/Unicode/styled, L/R/fill/skip cells, "
                    "styled and plain, Unicode, ragged cell counts, a quarter with ill-formed texts; non-trivial = printed table"),
-        Suite("print", gen_print, oracle=oracle_print, nontrivial=nontrivial_doc,
+        Suite("print", gen_print, oracle=oracle_print, project=strip_projection, nontrivial=nontrivial_doc,
               rule="records given by structure (dates, should-totals, durations/ranges/open ranges, multi-line summaries as tag and "
                    "text segments, two thirds with ESC fragments glued to tags and line ends), written out as a file and printed "
                    "by the real `klog print` under a scheme and under no_colour, vs. the model's document tree; "
